@@ -169,6 +169,16 @@ fn plan(p: &mut Plan<'_>) {
             p.part(paramsim::ParamSim, 300_000, 30_000_000, "one handshake seen from one endpoint: the peer's transport-parameter extension built id by id from a legal baseline plus 0..3 injections (absent mandatory id, value just beyond a bound, role-inappropriate id, duplicate, unknown/GREASE id, wrong-length / truncated / trailing-byte values, over-long connection ids, lying lengths, cid mismatch, Retry variants), delivered to the real parser and Parameters in both arrival orders with 0..3 waiters, spurious polls and connection errors at drawn points; reference = RFC 9000 tables; non-trivial = at least one injection or waiter interaction; distinct = hash of the op/result history");
             p.assumptions = vec!["reference tables written from RFC 9000 §4.6 §7.3 §7.4 §10.1 §18.2, RFC 9221 §3, RFC 9287 §3", "duplicated parameters: both outcomes accepted (RFC: MAY)", "max_udp_payload_size above 65527 is not generated (RFC and implementation disagree on an unusable range)", "idle timer probed 1 ms around the expected value on the paused tokio clock"];
         }
+        "C14" => {
+            p.part(cidsim::CidSim, 30_000, 3_000_000, "1..3 connections on one shared QuicRouter; the peer's NEW_CONNECTION_ID / RETIRE_CONNECTION_ID streams pass reorder / duplicate / delay channels; paths apply, borrow, hold, release and retire ids; connections are created and dropped at drawn points; Byzantine final moves (retire unissued, issue over limit, reuse a sequence); reference = sets/maps from RFC 9000 5.1, 19.15, 19.16; non-trivial = a fault fired and ids moved; distinct = hash of the op/result history");
+            p.assumptions = vec!["sequence numbers stay below 60 (huge values belong to C04)", "one borrow per cell at a time, as the packet assembler does", "same sequence with a different id is not judged (RFC: MAY)"];
+        }
+        "C16" => {
+            let n = wakesim::enumerated_total();
+            p.report.exhaustive_notes.push(format!("wakesim: every order-preserving merge of the actor scripts of every scenario with <= 8 steps, {n} interleavings over 35 protocols, enumerated completely (indexes below {n})"));
+            p.part(wakesim::WakeSim, 200_000, 50_000_000, "one real waiter/notifier protocol per case, each op one lock-protected call into the real type (poll, re-poll with another waker, drop the future; set condition, notify, close); all interleavings of small scenarios enumerated, larger ones sampled; composite send-loop waits scripted as check-then-register; oracle = audit poll at quiescence; non-trivial = a notifier or closer ran while a waiter was registered or about to register; distinct = hash of protocol + op/result history");
+            p.assumptions = vec!["interleavings at the granularity of whole lock-protected calls (sub-call interleavings would need the shuttle tier, not built)", "single-consumer types are driven with one consumer and a stable waker; what happens otherwise is a probe, not a verdict"];
+        }
         other => die(&format!("no check for property {other}")),
     }
 }
